@@ -4,6 +4,7 @@ import (
 	"fmt"
 	"go/token"
 	"go/types"
+	"strings"
 
 	"golang.org/x/tools/go/ssa"
 )
@@ -33,7 +34,7 @@ func (c *FnVC) loopWrites(li *loopInfo) (map[string][]string, bool, bool) {
 		}
 		if outside(a) {
 			if _, isPtr := a.Type().Underlying().(*types.Pointer); isPtr {
-				return fmt.Sprintf("(= l %s)", c.v(a))
+				return "EXACT:" + c.v(a)
 			}
 		}
 		switch x := a.(type) {
@@ -299,7 +300,34 @@ func (c *FnVC) loopHeader(li *loopInfo, reachName string) {
 				}
 				continue
 			}
-			c.havocComp(k, or(pats...), allocEntry, allocHead)
+			allExact := true
+			for _, p := range pats {
+				if !strings.HasPrefix(p, "EXACT:") {
+					allExact = false
+				}
+			}
+			if _, isLeaf := kindSort[k]; allExact && isLeaf {
+				// quantifier-free havoc: only these locations change
+				seen := map[string]bool{}
+				for _, p := range pats {
+					loc := strings.TrimPrefix(p, "EXACT:")
+					if seen[loc] {
+						continue
+					}
+					seen[loc] = true
+					fv := c.freshConst("loopmod_"+k, kindSort[k])
+					c.setH(k, fmt.Sprintf("(store %s %s %s)", c.H(k), loc, fv))
+				}
+				continue
+			}
+			var ps []string
+			for _, p := range pats {
+				if strings.HasPrefix(p, "EXACT:") {
+					p = fmt.Sprintf("(= l %s)", strings.TrimPrefix(p, "EXACT:"))
+				}
+				ps = append(ps, p)
+			}
+			c.havocComp(k, or(ps...), allocEntry, allocHead)
 		}
 	}
 	// phis: fresh symbols
@@ -345,6 +373,14 @@ func (c *FnVC) loopHeader(li *loopInfo, reachName string) {
 				}
 				c.assume(th)
 			}
+		}
+		for _, l := range li.spec.Lemmas {
+			t, err := c.invEval(li, headPhis, li.headHeap).lemmaExpr(l.Expr)
+			if err != nil {
+				c.errorf("%s: loop %d lemma %q: %v", c.fnName(), li.ordinal, l.Text, err)
+				continue
+			}
+			c.assume(t)
 		}
 		if li.spec.Decreases != nil {
 			t, _, err := c.invEval(li, headPhis, li.headHeap).expr(li.spec.Decreases.Expr, intT)
